@@ -28,8 +28,8 @@ use crate::{
         generic::{A, B},
     },
     gc::{self, CloneUnrooted, GcPtr, Trace},
-    stack::{ClosureState, ExternState, State},
-    thread::{ActiveThread, ThreadInternal},
+    stack::{ClosureState, ExternState, StackFrame, State},
+    thread::{ActiveThread, ThreadInternal, reset_stack},
     types::VmInt,
     value::{Callable, Userdata, Value, ValueRepr},
     vm::{RootedThread, Thread},
@@ -186,6 +186,14 @@ async fn resume(child: RootedThread) -> IO<Result<(), String>> {
             Err(Error::Dead) => IO::Value(Err("Attempted to resume a dead thread".into())),
             Err(err) => {
                 let fmt = format!("{}", err);
+                // The thread failed in the middle of a call. Unwind it so that it is dead from now
+                // on, otherwise the next `resume` would continue executing the frames of the
+                // failed call
+                {
+                    let mut context = child.context();
+                    let stack = StackFrame::<State>::current(&mut context.stack);
+                    let _ = reset_stack(stack, 1);
+                }
                 IO::Exception(fmt)
             }
         },
